@@ -53,6 +53,15 @@ class Sessions(object):
             self.fresh()
             return self.get()
         self.used += 1
+        if self.used % 5 == 0:
+            # every fifth session has already sent a NOTIFICATION that did not end it (a request queued by the application
+            # handler, written when the next KEEPALIVE arrives): framing must be judged the same afterwards
+            w.apply({'k': 'enqueue', 'items': [{'type': 'notification', 'msg': {'error': 6, 'sub_error': 4, 'data': b''}}]})
+            w.apply({'k': 'msg', 'c': c, 'm': 'KA'})
+            o = w.observe()
+            if o['st'] != 'ESTABLISHED':
+                self.fresh()
+                return self.get()
         return w, c
 
 
